@@ -641,6 +641,12 @@ def reload_reads_hooks(E, cls):
     return sorted(hit)
 
 
+def _root(e):
+    while isinstance(e, (ast.Attribute, ast.Subscript, ast.Call)):
+        e = e.func if isinstance(e, ast.Call) else e.value
+    return e.id if isinstance(e, ast.Name) else None
+
+
 def check_exposure(E, doms):
     ctx = E.ctx
     coarse = sorted(w for w, dd in doms.items() if not (dd & WRITERS[w][1]))
@@ -666,6 +672,12 @@ def check_exposure(E, doms):
                     hooked |= receivers(d)
         hooked.discard("self")
         own = set(hooked) | ({item_param} if item_param else set())
+        # id items looked up with the renamed item's own index belong to it (method = METHOD_ID[encoded_method.get_method_idx()])
+        for n0 in walk_no_nested(f.node):
+            if isinstance(n0, ast.Assign) and len(n0.targets) == 1 and isinstance(n0.targets[0], ast.Name) and item_param \
+                    and item_param in receivers(n0.value) | names_in(n0.value) and isinstance(n0.value, ast.Call):
+                if any(isinstance(a, ast.Call) and _root(a) == item_param for a in n0.value.args):
+                    own.add(n0.targets[0].id)
         for n in walk_no_nested(f.node):
             if not (isinstance(n, ast.Call) and isinstance(n.func, ast.Attribute) and n.func.attr == "reload" and not n.args):
                 continue
@@ -689,6 +701,8 @@ def check_exposure(E, doms):
                     else:
                         label = ast.unparse(it)[:40]
             tys = [c for k, c in cg.expr_types(recv, f, types)]
+            if label is None and tys and isinstance(recv, ast.Name):
+                label = "/".join(sorted(c.name for c in tys)) + " object"
             if label is None or not tys:
                 raise AnalysisError("%s: cannot tell what `%s` reloads (shape outside the fragment)" % (f.qualname, ast.unparse(n)))
             reads = set()
@@ -857,6 +871,21 @@ def thorough(ctx):
             return undo
         return mk
 
+    def reload_all_method_ids():
+        node = fn("ClassManager.set_hook_method_name")
+        new = ast.parse("self.__manage_item[TypeMapItem.METHOD_ID_ITEM].reload()").body[0]
+        ast.copy_location(new, node.body[-1])
+        ast.fix_missing_locations(new)
+        for a in ast.walk(new):
+            for b in ast.iter_child_nodes(a):
+                b._parent = a
+        new._parent = node
+        node.body.append(new)
+
+        def undo():
+            node.body.remove(new)
+        return undo
+
     base = Sink(ctx.repo)
     core(base)
     base_keys = {(r, q, str(c)) for r, q, c, msg in [(a, b, _norm(c), d) for a, b, c, d in base.findings]}
@@ -865,7 +894,8 @@ def thorough(ctx):
                 ("EncodedMethod.set_name: self.reload() dropped", drop_stmt("EncodedMethod.set_name", is_reload_of("self"))),
                 ("EncodedField.set_name: self.reload() dropped", drop_stmt("EncodedField.set_name", is_reload_of("self"))),
                 ("MethodIdItem.reload made lazy", lazy_reload),
-                ("set_hook_field_name: reload before the store", move_reload_before_store)]
+                ("set_hook_field_name: reload before the store", move_reload_before_store),
+                ("set_hook_method_name additionally reloads every method id", reload_all_method_ids)]
     benign = [("rename local method -> mid", rename_local("ClassManager.set_hook_method_name", "method", "mid")),
               ("rename local field -> fid", rename_local("ClassManager.set_hook_field_name", "field", "fid")),
               ("rename local _type -> tref", rename_local("ClassManager.set_hook_class_name", "_type", "tref"))]
